@@ -14,7 +14,11 @@ tie:   Gen_Auth.v regenerated from the source (compiled patterns, handler litera
        a trailing newline; oracle: the device receives the configured value as UTF-8 bytes + one return, byte for byte),
        devices that are quiet for a read-poll interval right after every answer, and histories
        of several logins on ONE channel / driver object (each login judged on its own; model: the history
-       fold hist_cl with the counter scope gen_auth reads from the source)."""
+       fold hist_cl with the counter scope gen_auth reads from the source), and login output LONGER than the prompt search
+       depth (window suite: banners of comms_prompt_search_depth +- 40 bytes, default depth and 100..2000, holding a non-prompt
+       line that ends like a prompt at every offset relative to the last-depth-bytes window, a read boundary at every position
+       of the last 80 banner bytes and of the first prompt; the model has no search depth in the login: the loops of the tree
+       never trim the login buffer, which the loop-shape obligation of gen_auth checks)."""
 import json
 import os
 
@@ -505,6 +509,8 @@ class Ctx:
         self.rep = rep
         self.info = info
         self.terms, self.meta = [], []
+        self.wterms, self.wmeta = [], []     # case terms of long dialogues (merge_heavy)
+        self.wbudget = 0                     # what is left of the model's byte budget for them (buffer bytes x reads)
         self.seen_terms = {}
         self.dist = {"runs": 0, "by_suite": {}, "by_region": {}, "by_outcome": {}, "by_policy": {}, "by_kind_stack": {},
                      "reads_hist": {}, "by_model": {}, "coq_cases": 0, "dedup": 0}
@@ -519,13 +525,35 @@ class Ctx:
             self.pc[k] = self.S.RefCfg(kind, style)
         return self.pc[k]
 
-    def add_term(self, term, meta):
+    def add_term(self, term, meta, heavy=False):
         if term in self.seen_terms:
             self.dist["dedup"] += 1
             return
         self.seen_terms[term] = len(self.terms)
+        if heavy:
+            self.wterms.append(term)
+            self.wmeta.append(meta)
+            return
         self.terms.append(term)
         self.meta.append(meta)
+
+    def merge_heavy(self):
+        """spread the expensive (long-dialogue) case terms evenly over the list, so that the shards of the model evaluation
+        (consecutive slices, evaluated in parallel) share them"""
+        if not self.wterms:
+            return
+        n, m = len(self.terms), len(self.wterms)
+        terms, meta, j = [], [], 0
+        for i in range(n):
+            while j < m and j * n <= i * m:
+                terms.append(self.wterms[j])
+                meta.append(self.wmeta[j])
+                j += 1
+            terms.append(self.terms[i])
+            meta.append(self.meta[i])
+        terms += self.wterms[j:]
+        meta += self.wmeta[j:]
+        self.terms, self.meta, self.wterms, self.wmeta = terms, meta, [], []
 
     def count(self, table, key):
         d = self.dist.setdefault(table, {})
@@ -572,14 +600,17 @@ def report_login(cx, kind, stack, region, general, fails, scen, res, hz, label="
 
 
 def one_login(cx, suite, stack, kind, style, spec, pol, creds, timeout_ops=30.0, eof="raise", via_driver=None,
-              max_reads=5000, judge="login"):
+              max_reads=5000, judge="login", heavy=False):
+    """heavy: a long-dialogue run (window suite): it is handed to the Coq model only within the byte budget cx.wbudget
+    (vm_compute of the derivative engine costs ~0.1 ms per buffer byte and read); over the budget the run is oracle-only"""
     S, rep = cx.S, cx.rep
     interval_ms = cx.intervals.setdefault(timeout_ops, interval_of(S, timeout_ops))
+    depth = spec.get("search_depth")        # a non-default comms_prompt_search_depth (None: the default of the tree)
     if via_driver:
-        res = S.run_driver(stack, kind, spec, pol, creds, driver=via_driver, timeout_ops=timeout_ops)
+        res = S.run_driver(stack, kind, spec, pol, creds, driver=via_driver, timeout_ops=timeout_ops, depth=depth)
     else:
         res = S.run_login(stack, kind, spec, pol, creds, prompt=cx.prompt_text[style], timeout_ops=timeout_ops, eof=eof,
-                          max_reads=max_reads)
+                          max_reads=max_reads, overrides={"comms_prompt_search_depth": depth} if depth else None)
     pc = cx.pycfg(kind, style)
     if judge == "open":
         general, fails, region, hz = judge_open(S, kind, spec, creds, res, pc)
@@ -602,15 +633,20 @@ def one_login(cx, suite, stack, kind, style, spec, pol, creds, timeout_ops=30.0,
               creds["user"], creds["phrase"], via_driver),
              nontrivial=len(res["writes"]) > 0 and nr > 1)
     pid = PROMPT_IDS[style]
-    if closed_loop_eligible(res, interval_ms) and not any(b"\n" in v for v in creds.values()):
-        # (a credential that contains a newline makes the device react twice to one answer: the closed-loop model's
-        # server prints one phase per answer, so those runs are checked against the open-loop model on the reads)
-        term = case_a(kind, pid, creds, interval_ms, res)
-        cx.count("by_model", "closed-loop (cl_run)")
+    cost = sum(1 for r in res["reads"] if r[0] == "data") * sum(len(tx) for _, tx in res["segments"]) if heavy else 0
+    if heavy and (cost > 12000 or cost > cx.wbudget):
+        cx.count("by_model", "oracle-only (long dialogue over the model's byte budget)")
     else:
-        term = case_b(kind, pid, creds, interval_ms, res, stack, eof)
-        cx.count("by_model", "open-loop (run_raw)")
-    cx.add_term(term, scen)
+        if closed_loop_eligible(res, interval_ms) and not any(b"\n" in v for v in creds.values()):
+            # (a credential that contains a newline makes the device react twice to one answer: the closed-loop model's
+            # server prints one phase per answer, so those runs are checked against the open-loop model on the reads)
+            term = case_a(kind, pid, creds, interval_ms, res)
+            cx.count("by_model", "closed-loop (cl_run)")
+        else:
+            term = case_b(kind, pid, creds, interval_ms, res, stack, eof)
+            cx.count("by_model", "open-loop (run_raw)")
+        cx.wbudget -= cost
+        cx.add_term(term, scen, heavy=heavy)
     fails = report_login(cx, kind, stack, region, general, fails, scen, res, hz)
     return res, fails, region
 
@@ -697,6 +733,159 @@ def hazard_suite(cx, n):
         spec = gen_spec(rng, "telnet", "channel", valid=True, lookalike=True)
         for pol in policies(rng, 80, 3, 1, bytewise=False):
             one_login(cx, "lookalike", rng.choice(["sync", "async"]), "telnet", "channel", spec, pol, dict(CREDS))
+
+
+# ---- pre-login output that is longer than the prompt search depth -------------------------------------------------------
+# A banner / MOTD line that is NOT a prompt (it has blanks) but ENDS like one: <= 32 / 48 characters of the prompt class and
+# one of # > $.  Read from its beginning it never matches a prompt pattern (they are anchored at the start of a line); a
+# client that only looks at the last N bytes of the login output sees its tail as a whole line when the window begins inside it.
+WINDOW_TAILS = [(b"Problems? Contact the NOC:", b" <", b"noc@example.com>"), (b"all prices in", b" ", b"US$"),
+                (b"mail to", b" ", b"root@localhost:/var/mail>"), (b"ticket queue is", b" ", b"ops/noc-2#"),
+                (b"escalation", b" '", b"ops-team@example.net:(24/7)>"), (b"daily rate", b" ", b"5$"),
+                (b"see", b" ", b"http://intranet.example.com/policy/acceptable-use#")]
+WINDOW_DEPTHS = [100, 128, 200, 256, 500, 512, 999, 1001, 1024, 1500, 2000]     # non-default comms_prompt_search_depth values
+TAIL_CLASS = b"abcdefghijklmnopqrstuvwxyz0123456789.-@()/:ABCXYZ"
+LOREM = b"lorem ipsum dolor sit amet consectetur adipiscing elit sed do eiusmod tempor incididunt ut labore et dolore magna "
+
+
+def gen_tail(rng):
+    if rng.random() < 0.5:
+        return rng.choice(WINDOW_TAILS)
+    while True:
+        word = bytes(rng.choice(TAIL_CLASS) for _ in range(rng.choice([1, 2, 3, 5, 8, 13, 21, 31, 32, 33, 40]))) + rng.choice([b"#", b">", b"$"])
+        if not any(x in word.lower() for x in (b"login:", b"username:", b"password:")):
+            break
+    return (rng.choice([b"contact", b"see also", b"queue", b"billing code", b"--", b"tel. 555 0100 or"]),
+            rng.choice([b" ", b" <", b" [", b" \"", b" ="]), word)
+
+
+def fill_lines(rng, n):
+    """exactly n bytes of whole harmless lines (CR-free)"""
+    out = b""
+    pool = [ln for ln in SAFE_LINES if ln.strip()]
+    while n - len(out) > 70:
+        out += rng.choice(pool) + b"\n"
+    r = n - len(out)
+    if r > 0:
+        k = rng.randrange(len(LOREM))
+        out += (LOREM * 3)[k:k + r - 1] + b"\n"
+    return out
+
+
+def window_spec(rng, kind, style, depth, delta, tail, q, lead=0):
+    """a dialogue whose banner (CR-free) is lead + depth + delta bytes long and has the line `tail` ending at offset lead + q
+    (moved as far as needed for the line to fit); depth None: the default of the tree (1000); lead: harmless lines in front
+    (a banner of several search depths: a client that trims its buffer now and then).  -> spec, geometry"""
+    D = depth or 1000
+    sp = gen_spec(rng, kind, style, valid=True)
+    line = tail[0] + tail[1] + tail[2]
+    Lb = lead + D + delta
+    q = min(max(lead + q, len(line)), Lb - 1)
+    flat = fill_lines(rng, q - len(line)) + line + b"\n" + fill_lines(rng, Lb - q - 1)
+    assert len(flat) == Lb and flat[q - len(line):q] == line
+    sp["banner"] = flat.replace(b"\n", sp["nl"])
+    if depth:
+        sp["search_depth"] = depth
+    first = sp["user_prompt"] if kind == "telnet" else (sp["phrase_prompt"] or sp["pass_prompt"])
+    crlf = sp["nl"] == b"\r\n"
+
+    def raw(p):     # CR-free stream offset -> raw stream offset
+        return (p + (flat.count(b"\n", 0, p) if crlf else 0)) if p <= Lb else raw(Lb) + p - Lb
+
+    # how much of the tail can pass for a prompt line: {1,32} / {1,48} / {0,48} characters and the final # > $
+    return sp, {"depth": D, "banner_len": Lb, "tail_end": q, "tail_len": min(len(tail[2]), 33 if style == "channel" else 49),
+                "prompt_len": len(first), "raw": raw}
+
+
+def window_edge_in_tail(S, res, geo):
+    """did a read of this run end while the last `depth` bytes of the login output began inside the prompt-like tail, the
+    first prompt not yet complete?"""
+    for e in S.cut_offsets(res):
+        w = e - geo["depth"]
+        if geo["tail_end"] <= e < geo["banner_len"] + geo["prompt_len"] and geo["tail_end"] - geo["tail_len"] < w <= geo["tail_end"] - 2:
+            return True
+    return False
+
+
+def window_suite(cx, n_random, salt=0, full=False, budget=70000):
+    """"login completes for any banner text and any chunking" where the login output is longer than the prompt search depth:
+    banners of comms_prompt_search_depth - 40 .. + 40 bytes (default depth and 100 .. 2000) with a non-prompt line that ends
+    like a prompt (gen_tail) at every offset relative to the last-`depth`-bytes window; chunkings: a read boundary at EVERY
+    position of the last 80 banner bytes and of the first prompt (one run with all of them, runs with one of them -- the
+    banner as a read of its own, a boundary that puts the window edge inside the tail, random ones; full: each of them),
+    small fixed read sizes; sync/asyncio, telnet/ssh, three prompt patterns, the channel login and driver.open().
+    Oracle: judge_login, unchanged (credentials at their prompts only, once; outcome and device log of a correct client)."""
+    import random
+    S = cx.S
+    rng = random.Random(cx.rep.seed * 7919 + 90903 + 97 * salt)
+    cx.wbudget = budget
+    cov = cx.dist.setdefault("window", {"dialogues": 0, "depths": {}, "banner_minus_depth": {}, "runs": 0,
+                                        "runs_with_window_edge_inside_the_tail": 0, "tail_offsets_hit": {}})
+    scens = []
+    combos = [(k, st) for k in ("telnet", "ssh") for st in ("channel", "driver", "generic")]
+    # the same on every seed: default depth, every login kind x prompt pattern, the banner as a read of its own puts the
+    # window edge inside '<noc@example.com>' (2 + 5 * (ci % 3) bytes before its end)
+    fixed = random.Random(90903 + salt)
+    for ci, (kind, style) in enumerate(combos):
+        tail = WINDOW_TAILS[0]
+        q = len(b"".join(tail)) + 3 * ci
+        scens.append((kind, style, None, q - 2 - 5 * (ci % 3), tail, q, None, fixed, 0))
+    for i in range(n_random):
+        kind = "telnet" if rng.random() < 0.6 else "ssh"
+        style = rng.choice(["channel", "driver", "generic"])
+        depth = None if rng.random() < 0.3 else rng.choice(WINDOW_DEPTHS)
+        D0 = depth or 1000
+        delta = rng.randint(-40, 40)
+        while True:
+            tail = gen_tail(rng)
+            if len(b"".join(tail)) < D0 + delta:
+                break
+        # mostly: some boundary in the last 80 bytes / the prompt puts the window edge inside the tail
+        q = delta + rng.randint(-60, 8 + min(len(tail[2]), 33)) if rng.random() < 0.75 else rng.randint(0, 130)
+        drv = None
+        if i % 4 == 3 and style != "channel":
+            drv = "generic" if style == "generic" else "base"
+        # every fifth: a banner of two or three search depths
+        lead = rng.choice([D0, 2 * D0 + 7]) if (i % 5 == 4 and D0 <= 1024) else 0
+        scens.append((kind, style, depth, delta, tail, q, drv, rng, lead))
+    for si, (kind, style, depth, delta, tail, q, drv, r, lead) in enumerate(scens):
+        spec, geo = window_spec(r, kind, style, depth, delta, tail, q, lead)
+        raw, Lb, D = geo["raw"], geo["banner_len"], geo["depth"]
+        sweep = list(range(max(1, Lb - 80), Lb + geo["prompt_len"]))
+        every = {"type": "cuts", "at": [raw(p) for p in sweep]}
+        own = {"type": "cuts", "at": [raw(Lb)]}
+        runs = [(own, st) for st in ("sync", "async")]
+        inside = [w + D for w in range(geo["tail_end"] - geo["tail_len"] + 1, geo["tail_end"] - 1) if (w + D) in sweep and w + D >= geo["tail_end"]]
+        if full:
+            runs += [({"type": "cuts", "at": [raw(p)]}, st) for p in sweep for st in ("sync", "async")]
+        else:
+            picks = ([r.choice(inside)] if inside else []) + r.sample(sweep, 2)
+            runs += [({"type": "cuts", "at": [raw(p)]}, r.choice(["sync", "async"])) for p in picks]
+        runs += [(every, st) for st in ("sync", "async")]
+        if Lb <= 300 or r.random() < 0.12:
+            runs.append(({"type": "bytes", "n": r.choice([1, 2, 3, 7])}, r.choice(["sync", "async"])))
+        cov["dialogues"] += 1
+        cov["depths"][str(D) + ("" if depth else " (default)")] = cov["depths"].get(str(D) + ("" if depth else " (default)"), 0) + 1
+        cov["banners_of_several_depths"] = cov.get("banners_of_several_depths", 0) + (1 if lead else 0)
+        bucket = "%+d..%+d" % (delta // 20 * 20, delta // 20 * 20 + 19)
+        cov["banner_minus_depth"][bucket] = cov["banner_minus_depth"].get(bucket, 0) + 1
+        for pol, stack in runs:
+            if drv and kind == "ssh" and stack == "async":
+                continue        # there is no asyncio transport that logs in over the channel
+            res, _, _ = one_login(cx, "window", stack, kind, style, spec, pol, dict(CREDS), via_driver=drv, heavy=True)
+            cov["runs"] += 1
+            if window_edge_in_tail(S, res, geo):
+                cov["runs_with_window_edge_inside_the_tail"] += 1
+            for e in S.cut_offsets(res):
+                k = geo["tail_end"] - (e - D)       # how many bytes of the tail a last-`depth`-bytes window would keep
+                if geo["tail_end"] <= e < Lb + geo["prompt_len"] and 2 <= k < geo["tail_len"] + 1:
+                    cov["tail_offsets_hit"][str(k)] = cov["tail_offsets_hit"].get(str(k), 0) + 1
+        if si == 0:
+            cx.rep.sample({"window_scenario": "%s login, default search depth %d, banner of %d bytes (CR-free) with the line %r ending at "
+                                              "offset %d; read boundaries at every position of the last 80 banner bytes and of the prompt"
+                                              % (kind, D, Lb, b"".join(tail).decode(), geo["tail_end"]),
+                           "outcome": res["outcome"], "typed": [[s, l.decode("latin-1")] for s, l, _ in res["log"]]})
+    cov["tail_offsets_hit"] = dict(sorted(cov["tail_offsets_hit"].items(), key=lambda kv: int(kv[0])))
 
 
 def kick_suite(cx, n):
@@ -1274,6 +1463,9 @@ def run(rep):
         quiet_suite(cx, 60 if thorough else 12)
         login_suite(cx, 100 if thorough else 20, None if thorough else 24, 8 if thorough else 4, 2 if thorough else 3)
         hazard_suite(cx, 15 if thorough else 5)
+        window_suite(cx, 80 if thorough else 20, budget=1200000 if thorough else 70000)
+        if thorough:
+            window_suite(cx, 10, salt=2, full=True, budget=300000)
         kick_suite(cx, 500 if thorough else 100)
         driver_suite(cx, 40 if thorough else 10)
         open_suite(cx, 3 if thorough else 1)
@@ -1283,6 +1475,7 @@ def run(rep):
         dlgok_suite(cx, 150 if thorough else 30)
         broken_before = list(rep.broken)
         bad = None
+        cx.merge_heavy()
         if gen_ok and ok:
             bad, log = common.eval_cases(rep.workdir, "cases_c09", HEADER, cx.terms, "chk", shard=max(40, len(cx.terms) // (common.JOBS * 2) + 1))
             cx.dist["coq_cases"] = len(cx.terms)
@@ -1316,6 +1509,9 @@ def run(rep):
                     if rep.violations:
                         break
             if not rep.violations:
+                # (on the real code only: the model has been evaluated)
+                window_suite(cx, 30, salt=1, full=True, budget=0)
+            if not rep.violations:
                 login_suite(cx, 10, 40, 6, 1, label="search")
                 hazard_suite(cx, 3)
                 kick_suite(cx, 80)
@@ -1347,7 +1543,13 @@ def run(rep):
                 "on every seed + a random part; quiet: the device says nothing for 1-3 read polls (clock + poll/3 .. poll+1 ms each, "
                 "timeout_ops 10/30/60) right after every line the client sends; history: 2-4 (thorough 2-6) "
                 "logins on ONE channel / driver object (open, close, open ...), plain and with one re-prompt, valid and rejected "
-                "credentials, sync/asyncio, telnet/ssh; events: open-loop scripts of prompt "
+                "credentials, sync/asyncio, telnet/ssh; window: banners of search depth - 40 .. + 40 bytes (default 1000 and "
+                "comms_prompt_search_depth 100 .. 2000; 6 fixed dialogues on every seed + random ones, every fifth of those with "
+                "one or two more search depths of harmless lines in front) with a non-prompt line "
+                "ending like a prompt (fixed and random tails) placed at every offset relative to the last-depth-bytes window "
+                "x read boundaries at every position of the last 80 banner bytes and of the first prompt (all in one run; the "
+                "banner as one read; single boundaries: one that puts the window edge inside the tail + random ones, thorough / "
+                "failing-input search: each of them) x small fixed read sizes x sync/asyncio x channel login / driver.open(); events: open-loop scripts of prompt "
                 "snippets; non-trivial = something was written and more than one read; distinct = (suite, dialogue, chunking, credentials)")
 
 
@@ -1457,8 +1659,15 @@ MANIFEST = {
             "the bytes received state by state are those a correct client types' for credential values with blanks / tabs / empty / "
             "long / %, backslash, quotes / non-ASCII / regex metacharacters / trailing newline through the whole open(), the same "
             "history oracles with a device that is quiet for one or more read polls after each answer (asyncio poll expiry, sync "
-            "empty read), and per login of a multi-login history "
-            "'outcome and device log are those of the same login on a fresh object'.",
+            "empty read), per login of a multi-login history "
+            "'outcome and device log are those of the same login on a fresh object', and the login oracle (credentials only at "
+            "their prompts, once; outcome and device log of a correct client, i.e. the login completes only at the real prompt) "
+            "on login output LONGER than the prompt search depth: banners of comms_prompt_search_depth - 40 .. + 40 bytes "
+            "(default 1000 and 100 .. 2000, also through the driver's setter and open(); some with one or two more search depths "
+            "of harmless lines in front) that hold a line which is no prompt but "
+            "ends like one ('<noc@example.com>', 'prices in US$', random tails of 1-40 prompt-class characters) at every offset "
+            "relative to the last-depth-bytes window, with a read boundary at every position of the last 80 banner bytes and of "
+            "the first prompt (all of them in one run, and one at a time).",
     "note": "Section-variable style hypotheses (named in the theorems): empties (nothing matches the empty buffer: discharged for the "
             "patterns of the tree by C09_generated_empties), dlg_ok (no chunk-prefix of the dialogue provokes a reaction other than the "
             "one the server waits for: this is the region of the known partial-line finding), no_kick_sched (closed-loop theorems: the "
@@ -1479,6 +1688,15 @@ MANIFEST = {
             "a scripted clock (no real waiting), begun by a completed line and at most 12 per run. The history theorems assume what C09_generated_counters_local establishes for the tree (no login state on the "
             "object); other per-object state (ANSI partial, channel log) is outside the model, the history scenarios observe it only "
             "through the oracle. "
+            "Search depth: the model has no comms_prompt_search_depth in the login, because the four loops of the tree never "
+            "trim authenticate_buf (gen_auth's loop-shape obligation accepts only `authenticate_buf += buf.lower()`; a loop that "
+            "keeps a window is refused there and the long-banner scenarios are then still run on the real code, in the main "
+            "exploration and, exhaustively over the boundaries, in the failing-input search). The long-banner (window) runs are "
+            "handed to the model only within a byte budget (vm_compute of the derivative engine costs ~0.1 ms per buffer byte "
+            "and read: at most 12k buffer-bytes x reads per run, 70k per quick run, 1.5M thorough -- the single-boundary runs "
+            "and the small-depth sweeps); the other window runs, notably the 80-boundary sweeps at depth >= 500, are "
+            "oracle-only (coverage: by_model). Long output AFTER the last answer (a MOTD longer than the depth) is not generated: "
+            "the oracle cannot tell an early return there from a correct one by the device log. "
             "Known findings: partial-line matches (login:/username:/password: or a shell-prompt-like prefix inside a longer line at a "
             "read boundary), server that re-prompts once then is silent.",
     "technique": "Coq proof by induction over the read-event list with a history invariant (trigger = data since the last answer) and over "
